@@ -58,6 +58,28 @@ def build(tier):
             else:
                 case(f"variant-rename-{rp}-unit", kind, s, TypeDef("X", "enum", variants=vr, attrs=list(rattr), derives=TS_ONLY, vals=False), lits=[s, "C"])
                 case(f"variant-rename-{rp}-struct", kind, s, TypeDef("X", "enum", variants=vr2, attrs=list(rattr), derives=TS_ONLY, vals=False), lits=[s, "A"])
+    # the same strings where the generated text is post-processed: inside flattened types (object parts are
+    # merged, a lone flattened field is unwrapped from its parentheses) and inlined types
+    for kind, s in SIGMA:
+        lit = rs(s)
+        e1 = TypeDef("E1", "enum", variants=[Variant("A", "named", [Field("i32", "x", [f"#[ts(rename = {lit})]"])]), Variant("B", "unit", attrs=[f"#[ts(rename = {lit})]"])], derives=TS_ONLY, vals=False)
+        e2 = TypeDef("E2", "enum", variants=[Variant("C", "tuple", [Field("i32")]), Variant("D", "unit")], derives=TS_ONLY, vals=False)
+        inner = TypeDef("Inner", "struct", "named", [Field("E1", "e1", ["#[ts(flatten)]"]), Field("E2", "e2", ["#[ts(flatten)]"])], derives=TS_ONLY, vals=False)
+        lone = TypeDef("X", "struct", "named", [Field("Inner", "i", ["#[ts(flatten)]"])], derives=TS_ONLY, vals=False)
+        out.append(Case({"family": "string-content", "position": "inside-lone-flattened-two-enums", "string_kind": kind}, [e1, e2, inner, lone],
+                        [f'ctx.c04_strings::<X>("X", &[{rs(s)}, "A", "C"], &[{rs(s)}, "D"]);']))
+        withsib = TypeDef("X", "struct", "named", [Field("bool", "own"), Field("Inner", "i", ["#[ts(flatten)]"])], derives=TS_ONLY, vals=False)
+        out.append(Case({"family": "string-content", "position": "inside-flattened-two-enums-with-sibling", "string_kind": kind}, [e1, e2, inner, withsib],
+                        [f'ctx.c04_strings::<X>("X", &[{rs(s)}, "A", "C", "own"], &[{rs(s)}, "D"]);']))
+        st = TypeDef("S1", "struct", "named", [Field("i32", "a", [f"#[ts(rename = {lit})]"]), Field("bool", "b")], derives=TS_ONLY, vals=False)
+        st2 = TypeDef("S2", "struct", "named", [Field("i32", "c")], derives=TS_ONLY, vals=False)
+        for pos, attrs2 in (("inside-flattened-struct", ["#[ts(flatten)]"]), ("inside-inlined-struct", ["#[ts(inline)]"])):
+            outer = TypeDef("X", "struct", "named", [Field("S1", "s1", attrs2), Field("S2", "s2", attrs2), Field("bool", "own")], derives=TS_ONLY, vals=False)
+            out.append(Case({"family": "string-content", "position": pos, "string_kind": kind}, [st, st2, outer],
+                            [f'ctx.c04_strings::<X>("X", &[{rs(s)}, "b", "c", "own"], &[]);']))
+        lone_st = TypeDef("X", "struct", "named", [Field("S1", "s1", ["#[ts(flatten)]"])], derives=TS_ONLY, vals=False)
+        out.append(Case({"family": "string-content", "position": "inside-lone-flattened-struct", "string_kind": kind}, [st, lone_st],
+                        [f'ctx.c04_strings::<X>("X", &[{rs(s)}, "b"], &[]);']))
     # rename_all producing non-identifier keys, with and without type overrides / optional / inline
     for rule, key in (("kebab-case", "multi-word"), ("SCREAMING-KEBAB-CASE", "MULTI-WORD")):
         td = TypeDef("X", "struct", "named", [Field("i32", "multi_word", ['#[ts(type = "number")]']), Field("Option<i32>", "other_one", ["#[ts(optional)]"]), Field("St", "third_one", ["#[ts(inline)]"])], attrs=[f'#[ts(rename_all = "{rule}")]'], derives=TS_ONLY, vals=False)
